@@ -151,6 +151,8 @@ class Check(PropertyCheck):
             if any(h["disp"] == "done" for h in model["hist"]):
                 nontriv.add(json.dumps(fl.scn_brief(scn), sort_keys=True))
         self.disagreements = dis
+        if getattr(self.gen, "codec_broken", False):
+            self.broken.append(Broken("correspondence", "lbzip2 fails as a stdin->stdout filter on valid input (used as codec instance)", ""))
         for dd in dis[:5]:
             self.broken.append(Broken("correspondence", "operand-loop model vs lbzip2 differ on `lbzip2 %s`" % " ".join(dd["argv"]),
                                       "; ".join(dd["diffs"])[:1500]))
